@@ -94,11 +94,16 @@ except Exception as e:
 def replay_script(sc, case, residual, fields, pt, text, tol=1e-4, extra_env=None, exc_is_violation=False):
     """native replay of an equality between fields/derivatives of the real solver at the counterexample"""
     e, needs = placeholders(residual, fields)
-    params = {}
-    for k, v in sc.kwargs(case).items():
-        if isinstance(v, sp.Basic):
-            params[k] = solverkit.native.pyval(alg.numeric(v, pt, 20)) if v.free_symbols else solverkit.native.pyval(v)
-        else: params[k] = v
+    def plain(v):
+        if isinstance(v, dict) and '__tuple__' in v: return tuple(plain(q) for q in v['__tuple__'])
+        if isinstance(v, list): return [plain(q) for q in v]
+        return v
+    params = {k: plain(solverkit.numify(v, pt)) for k, v in sc.kwargs(case).items()}
+    extra_env = dict(extra_env or {})
+    for s_ in sc.symbols():
+        if s_ in pt and s_.name not in extra_env:
+            try: extra_env[s_.name] = float(alg.numeric(pt[s_], {}, 20))
+            except Exception: pass
     posl = list(sc.pos) if isinstance(sc.pos, (list, tuple)) else [sc.pos]
     pos = [float(alg.numeric(x, pt)) for x in posl]
     terms = [sp.pycode(tm) for tm in sp.Add.make_args(sp.expand(e) if len(str(e)) < 4000 else e)]
@@ -135,7 +140,10 @@ def finish(obl, mk_replay):
 def sym_point(sc, raw):
     """cex_raw (names -> strings) -> {symbol: value}"""
     by = {s.name: s for s in sc.symbols()}
-    return {by[k]: v for k, v in raw.items() if k in by}
+    pt = {by[k]: v for k, v in raw.items() if k in by}
+    for s_ in by.values():
+        if s_ not in pt: pt[s_] = sp.Integer(1)     # symbols the failing obligation does not mention
+    return pt
 
 
 def solver_unit(sc, case, per_path, tier, K=None, tag=''):
